@@ -145,6 +145,18 @@ ExtBases(fam, slot) ==
 ExtremeCasesOf(fam) ==
     UNION {{<<fam, cl, <<slot, lev>> >> : cl \in ExtBases(fam, slot), lev \in ExtLevels(fam, slot)} :
              slot \in ShapeSlots(fam) \cup ScaleSlots(fam)}
-ExtremeCases == UNION {ExtremeCasesOf(fam) : fam \in LawFamilies}
+(* underflow classes (slot 9): a large first and a tiny second shape, where z = (x/alpha)^beta *)
+(* resp. (lambda_ x)^c is below 1e-300 over most of the support although F(x) is an ordinary   *)
+(* number (these are the vectors the library's own fits return for data with a sharp end       *)
+(* point).  Code of the case (harness/c05.py UNDERFLOW decodes it):                             *)
+(*   ExpWeibull 1..16 = 1 + ib + 2 id + 8 ia:  beta = 100, 500;  delta = 0.3, 0.01, 0.002,      *)
+(*                                             0.001;  alpha = 1, 1000                           *)
+(*   GenGamma   1..8  = 1 + im + 2 ic + 4 il:  m = 0.05, 0.002;  c = 100, 500;  lambda_ = 1,     *)
+(*                                             0.001                                             *)
+(* The tables get the extra grid points x / scale = 0.01 .. 1.                                  *)
+UnderflowCases ==
+    {<<"ExpWeibull", <<2, 1, 0>>, <<9, code>> >> : code \in 1..16}
+      \cup {<<"GenGamma", <<2, 1, 0>>, <<9, code>> >> : code \in 1..8}
+ExtremeCases == UNION {ExtremeCasesOf(fam) : fam \in LawFamilies} \cup UnderflowCases
 
 =============================================================================
